@@ -1,6 +1,7 @@
 import Ecal.Model.Parser
 /-!
-Model of parser/prettyprinter.go (pinned commit, unrepaired).  Text is a byte list.
+Model of parser/prettyprinter.go at the CURRENT commit of /repo (with the repairs 58be508 — bracket rule
+`ppNeedsBrackets` — and 4f48871 — empty block comment).  Text is a byte list.
 `Out.panic` = a Go panic (missing template, nil token, bad slice …), `Out.nilNode` = the
 "Nil pointer in AST" error.
 -/
@@ -116,7 +117,19 @@ def tmpl (key : String) : Option (List (String ⊕ Nat)) :=
   | "mutex_2" => some [.inl "mutex ", .inr 1, .inl " {\n", .inr 2, .inl "}\n"]
   | _ => none
 
-def bracketNames : List String := ["plus", "minus", "and", "or"]
+/-- ppNeedsBrackets(parent, child, childIndex): does the printed child need parentheses to be parsed
+    again into the same position under its parent? -/
+def needsBrackets (parent child : Node) (childIndex : Nat) : Bool :=
+  if child.binding = 0 || parent.binding = 0 ||
+      (child.led = Led.none && child.name != "not") ||
+      (parent.led = Led.none && parent.name != "not") then false   -- only operators under operators
+  else if parent.children.length = 1 then                          -- operand of a prefix operator (ndPrefix)
+    decide (child.binding ≤ parent.binding + 20)
+  else if child.children.length = 1 then                           -- prefix operator under an infix operator
+    decide (parent.binding > child.binding + 20)
+  else if parent.name = "times" && (child.name = "times" || child.name = "div") then false
+  else decide (parent.binding > child.binding) || (parent.binding = child.binding && childIndex > 0)
+
 def indentNames : List String := ["statements", "map", "list", "kindmatch", "statematch", "scopematch", "priority", "suppresses"]
 def noInitialIndentParents : List String :=
   ["return", "in", ":=", "preset", "kvp", "list", "funccall", "kindmatch", "statematch", "scopematch", "priority", "suppresses"]
@@ -133,8 +146,7 @@ def ppMetaData (ast : Node) (txt : Txt) : Except PErr Txt :=
       let lines := scanLines m.val
       let buf : Txt := lines.flatMap fun l => [32] ++ trimSpace l ++ [10]
       let tok ← (match ast.tok with | some t => pure t | none => throw PErr.panic)
-      let buf ← (if tok.col != 1 || !(containsNl m.val) then
-          (if buf.isEmpty then throw PErr.panic else pure buf.dropLast) else pure buf)
+      let buf : Txt := if !buf.isEmpty && (tok.col != 1 || !(containsNl m.val)) then buf.dropLast else buf
       let buf := if !(containsNl buf) then buf ++ [32] else buf
       let ret := s "/*" ++ buf ++ s "*/\n" ++ ret
       pure (if tok.line > 1 then [10] ++ ret else ret)
@@ -169,10 +181,10 @@ partial def visit (ast? : Option Node) (parent : Option Node) : Except PErr Txt 
   let ast ← (match ast? with | some a => pure a | none => throw PErr.nilNode)
   let n := ast.children.length
   -- children first
-  let ps ← ast.children.mapM fun ch => do
+  let ps ← (ast.children.zipIdx).mapM fun (ch, i) => do
     let res ← visit ch (some ast)
     match ch with
-    | some chn => pure (if bracketNames.contains chn.name && ast.binding > chn.binding then s "(" ++ res ++ s ")" else res)
+    | some chn => pure (if needsBrackets ast chn i then s "(" ++ res ++ s ")" else res)
     | none => pure res
   let key := if n > 0 then ast.name ++ "_" ++ toString n else ast.name
   let kids : List Node := ast.children.filterMap id
